@@ -109,6 +109,8 @@ struct FnDir {
     pre: String,
     post: String,
     befores: Vec<(String, String)>,
+    /// E24 `@@restmt anchor` + text: the one statement matching the anchor is REPLACED by the text (declared, reported)
+    restmts: Vec<(String, String)>,
     macros: Vec<(String, String)>,
     tpl_line: usize,
     tpl_file: String,
@@ -382,6 +384,10 @@ fn parse_template(path: &Path, nodes: &mut Vec<Node>) {
                             let s = multiline(&mut i);
                             d.befores.push((rest, s));
                         }
+                        "restmt" => {
+                            let s = multiline(&mut i);
+                            d.restmts.push((rest, s));
+                        }
                         other => die(&format!("{sctx}: unknown sub-directive @@{other}")),
                     }
                 }
@@ -511,6 +517,7 @@ struct Ed<'a> {
     closure_params: Vec<(usize, usize, String)>,
     loops_used: Vec<usize>,
     befores_used: Vec<bool>,
+    restmts_used: Vec<usize>,
     macros_used: Vec<bool>,
     errors: Vec<String>,
     in_closure_inputs: bool,
@@ -575,6 +582,7 @@ impl<'a> Ed<'a> {
             closure_params: vec![],
             loops_used: vec![],
             befores_used: vec![false; dir.befores.len()],
+            restmts_used: vec![0; dir.restmts.len()],
             macros_used: vec![false; dir.macros.len()],
             errors: vec![],
             in_closure_inputs: false,
@@ -712,6 +720,14 @@ impl<'a, 'ast> Visit<'ast> for Ed<'a> {
             if !self.befores_used[k] && anchor_match(txt, anchor_l.as_str()) {
                 self.befores_used[k] = true;
                 self.edits.push(Edit { start: r.start, end: r.start, text: format!("{ins}\n"), kind: "splice-before", swallow: false });
+            }
+        }
+        // E24: a whole statement replaced by declared text (a composition of pieces verified elsewhere)
+        for (k, (anchor, text)) in self.dir.restmts.iter().enumerate() {
+            if anchor_match(txt, anchor.as_str()) {
+                self.restmts_used[k] += 1;
+                self.push(r.start, r.end, text.trim_end().to_string(), "E24-statement-replaced-by-declared-text", true);
+                return;
             }
         }
         // E20: `let fut = async { BODY };` .. `AssertUnwindSafe(fut).catch_unwind()`: the user code is
@@ -2593,6 +2609,11 @@ fn check_used(ed: &Ed, d: &FnDir, ctx: &str) {
     for (k, (a, _)) in d.befores.iter().enumerate() {
         if !ed.befores_used[k] {
             die(&format!("{ctx}: @@before anchor not found: {a}"));
+        }
+    }
+    for (k, (a, _)) in d.restmts.iter().enumerate() {
+        if ed.restmts_used[k] != 1 {
+            die(&format!("{ctx}: @@restmt anchor matches {} statements (exactly one expected): {a}", ed.restmts_used[k]));
         }
     }
     for (k, (a, _)) in d.macros.iter().enumerate() {
